@@ -47,6 +47,11 @@ META = {
         "leading blanks). For ALL whitespace-delimited records (decimal points not in the PDB columns 34/42/50, as in "
         "every --whitespace layout) the LAST five words after column 30 are measured whatever precedes them, e.g. the "
         "insertion code at index 30 (C17-F13 repaired). The .in text names Path(pqr).name and carries ngrid/coarse/fine. "
+        "Console entry points (fresh process per command line, option lattice of both parsers): what psize prints and "
+        "inputgen writes must be the sizing for the parameters the command line states - tied to the model for the "
+        "printed psize report and the mg-auto numbers; mg-para/mg-manual/--asynch/--split texts are not in the Coq model "
+        "and are judged by the oracle and the library only; pdb2pqr.psize has no main() (upstream #181): its "
+        "build_parser() is driven as Psize(**options). inputgen.main raises on every command line (C17-F14). "
         "Not covered: numbers wider than their columns (truncated by the writer: C08 overflow finding); --whitespace "
         "records written by a print_pqr that leaves z|q|r touching (before the C08 repairs) with |q| >= 100 or r >= 10."
     ),
@@ -1007,6 +1012,11 @@ def run(ctx):
             ctx.fail(sig, what, {"kind": "dump_apbs", "pqrpath_rel": c["rel"], "lines": c["lines"], "inrel": c["inrel"]})
     end_to_end(ctx)
 
+    # ---------------- stream "entry": console entry points in fresh processes ----
+    termsE, keepE = entry_stream(ctx, 14 * (5 if ctx.thorough else 1))
+    if entry_correspondence(ctx, termsE, keepE):
+        corr_broken = True
+
     # ---------------- samples etc. ----------------------------------------
     for c in (A_cases[8:9] + B_cases[-1:]):
         ctx.sample({"lines_head": c["lines"][:6], "params": c["params"], "impl": {k: c["impl"].get(k) for k in ("status", "ngrid", "nsmall", "nproc", "nfocus", "center", "fine", "coarse", "report")}, "model": c.get("model", "")[:300]})
@@ -1219,6 +1229,510 @@ def end_to_end(ctx):
 
 
 # --------------------------------------------------------------------------
+# stream "entry": the console entry points, each run in a fresh process
+#
+#   psize    pdb2pqr.psize.main() when the module has one; upstream removed the psize command
+#            line (#181) and left build_parser(): then the driver is the obvious one,
+#            Psize(**parsed options).run_psize(mol_path); print(psize)
+#   inputgen pdb2pqr.inputgen.main()  (console script `inputgen`)
+#
+# Reference = the sizing library evaluated in-process with the parameters THE COMMAND LINE
+# STATES (which stream A/B tie to the Coq model, and which is compared with the model here
+# as well); what the entry point prints / writes must be that, and must pass the property's
+# own oracle (atoms read back by column).
+
+import subprocess
+import sys as _sys
+from concurrent.futures import ThreadPoolExecutor
+
+OPT_TYPES = {"cfac": float, "fadd": float, "space": float, "gmemfac": int, "gmemceil": int, "ofrac": float, "redfac": float}
+
+PSIZE_DRIVER = (
+    "import sys, json\n"
+    "sys.argv = ['psize'] + json.loads(sys.argv[1])\n"
+    "import pdb2pqr.psize as m\n"
+    "if hasattr(m, 'main'):\n"
+    "    m.main()\n"
+    "else:\n"
+    "    kw = vars(m.build_parser().parse_args())\n"
+    "    path = kw.pop('mol_path')\n"
+    "    p = m.Psize(**kw)\n"
+    "    p.run_psize(path)\n"
+    "    print(p)\n"
+)
+INPUTGEN_DRIVER = (
+    "import sys, json\n"
+    "sys.argv = ['inputgen'] + json.loads(sys.argv[1])\n"
+    "import pdb2pqr.inputgen as m\n"
+    "m.main()\n"
+)
+
+
+def run_entry(driver, argv, cwd):
+    env = dict(os.environ, PYTHONPATH=str(core.REPO), PYTHONHASHSEED="0")
+    try:
+        r = subprocess.run([_sys.executable, "-c", driver, json.dumps(argv)], cwd=str(cwd), env=env, capture_output=True, text=True, timeout=180)
+    except subprocess.TimeoutExpired:
+        return {"rc": -9, "out": "", "err": "timeout"}
+    return {"rc": r.returncode, "out": r.stdout, "err": r.stderr}
+
+
+def gen_cli(rng, k):
+    """A point of the option lattice: option omitted (= parser default) / boundary / random legal
+    value.  Values of different options never coincide, so that a swap is visible."""
+    choices = {
+        "cfac": [1.0, 1.7, 3.0, 2.5, round(rng.uniform(1.05, 4), 3)],
+        "fadd": [0.0, 20.0, 40.0, 7.25, round(rng.uniform(5, 50), 2)],
+        "space": [0.2, 0.5, 1.0, 2.0, 0.75, round(rng.uniform(0.3, 2), 3)],
+        "gmemfac": [200, 100, 400],
+        "gmemceil": [400, 1, 10, 50, 100, 1000, rng.randint(2, 500)],
+        "ofrac": [0.1, 0.0, 0.2, 0.5, round(rng.uniform(0.01, 0.45), 3)],
+        "redfac": [0.25, 0.1, 0.5, 0.75, round(rng.uniform(0.05, 0.9), 3)],
+    }
+    mode = ("defaults", "all", "some", "one")[k % 4]
+    given = {}
+    for o in PKEYS:
+        take = {"defaults": False, "all": True, "some": rng.random() < 0.5, "one": False}[mode]
+        if take:
+            given[o] = rng.choice(choices[o])
+    if mode == "one":
+        o = PKEYS[(k // 4) % len(PKEYS)]
+        given[o] = rng.choice(choices[o][1:])
+    return given
+
+
+def cli_argv(given):
+    argv = []
+    for o, v in given.items():
+        argv += ["--" + o, repr(v)]
+    return argv
+
+
+def cli_params(given):
+    return dict(DEFAULTS, **{o: OPT_TYPES[o](v) for o, v in given.items()})
+
+
+_NUM = r"(-?[\d.]+(?:e[-+]?\d+)?|nan|inf)"
+
+
+def parse_printed(text):
+    """The report of Psize.__str__ parsed back (numbers as printed)."""
+    if "No ATOM entries in file" in text:
+        return {"noatom": True}
+    out = {}
+
+    def three(label, unit=r" Å"):
+        m = re.search(label + r" = " + _NUM + unit + " x " + _NUM + unit + " x " + _NUM, text)
+        return [float(x) for x in m.groups()] if m else None
+
+    def one(label, conv=float):
+        m = re.search(label + r" = " + _NUM, text)
+        return conv(m.group(1)) if m else None
+
+    out["natom"] = one(r"Number of ATOM entries", int)
+    out["nhet"] = one(r"Number of HETATM entries \(ignored\)", int)
+    out["charge"] = one(r"Total charge")
+    for key, label in (("mol", "Dimensions"), ("center", "Center"), ("lower", "Lower corner"), ("upper", "Upper corner"), ("coarse", "Course grid dims"), ("fine", "Fine grid dims"), ("ngrid", r"Num\. fine grid pts\.")):
+        out[key] = three(label)
+    out["parallel"] = "Parallel solve required" in text
+    out["nproc"] = three(r"Proc\. grid", "")
+    out["nsmall"] = three(r"Grid pts\. on each proc\.", "")
+    m = re.search(r"Estimated mem\. required for (sequential|parallel) solve = " + _NUM, text)
+    out["kind"], out["mem"] = (m.group(1), float(m.group(2))) if m else (None, None)
+    out["nfocus"] = one(r"Number of focusing operations", int)
+    out["memproc"] = one(r"Memory per processor")
+    if any(out[k] is None for k in ("natom", "mol", "center", "coarse", "fine", "ngrid", "mem", "nfocus", "memproc")):
+        return {"unparsed": True}
+    return out
+
+
+def direct_text(lines, params):
+    """str(Psize) of the library, in-process, for the given parameters."""
+    from pdb2pqr.psize import Psize
+
+    p = Psize(**params)
+    try:
+        p.parse_lines(lines)
+        p.set_all()
+        return str(p)
+    except Exception as e:  # noqa
+        return f"ERR:{type(e).__name__}"
+
+
+def printed_oracle(rep, atoms, params):
+    """The property itself on the printed report (3 decimals printed: tolerances accordingly)."""
+    out = []
+    if rep.get("noatom") or not atoms:
+        return out
+    lo = [min(float(a[1 + i] - a[5]) for a in atoms) for i in range(3)]
+    hi = [max(float(a[1 + i] + a[5]) for a in atoms) for i in range(3)]
+    for i in range(3):
+        if abs(rep["center"][i] - (lo[i] + hi[i]) / 2) > 1.1e-3:
+            out.append(("not-centred", f"printed centre[{i}]={rep['center'][i]} but the atom spheres span [{lo[i]}, {hi[i]}]"))
+            break
+    for name in ("fine", "coarse"):
+        bad = [i for i in range(3) if rep["center"][i] - rep[name][i] / 2 > lo[i] + 2.1e-3 or rep["center"][i] + rep[name][i] / 2 < hi[i] - 2.1e-3]
+        if bad and params["cfac"] >= 1 and params["fadd"] >= 0:
+            out.append((f"{name}-box-misses-atom", f"printed {name} box (centre {rep['center']}, lengths {rep[name]}) does not hold the spheres [{lo}, {hi}]"))
+    if any(rep["fine"][i] > rep["coarse"][i] + 1.1e-3 for i in range(3)):
+        out.append(("fine-exceeds-coarse", f"printed fine {rep['fine']} > coarse {rep['coarse']}"))
+    ng = rep["ngrid"]
+    if any(n != int(n) or n < 33 or (int(n) - 1) % 32 for n in ng):
+        out.append(("grid-form", f"printed grid {ng} is not 32k+1 >= 33"))
+    gmem = 200.0 * ng[0] * ng[1] * ng[2] / 1024 / 1024
+    grid = rep["nsmall"] if rep["parallel"] and rep["nsmall"] else ng
+    want = 200.0 * grid[0] * grid[1] * grid[2] / 1024 / 1024
+    if abs(rep["mem"] - want) > 5.1e-4 or abs(rep["memproc"] - want) > 5.1e-4 or rep["parallel"] != (gmem > params["gmemceil"]) or (rep["kind"] == "parallel") != rep["parallel"]:
+        out.append(("memory-figure", f"printed {rep['kind']} {rep['mem']} / {rep['memproc']} MB but 200*{grid}/2^20 = {want:.3f} (grid {gmem:.3f} MB, ceiling {params['gmemceil']})"))
+    return out
+
+
+def blame_option(given, matches):
+    """Which option explains a report that is not the one for the command line: `matches(params)`
+    says whether the entry point's output is what the library gives for `params`."""
+    base = cli_params(given)
+    for o in given:
+        if matches(dict(base, **{o: DEFAULTS[o]})):
+            return "option-ignored", "--" + o
+    if given and matches(dict(DEFAULTS)):
+        return "options-ignored", ",".join("--" + o for o in sorted(given))
+    for a in PKEYS:
+        for b in PKEYS:
+            if a < b and base[a] != base[b] and matches(dict(base, **{a: base[b], b: base[a]})):
+                return "options-swapped", f"--{a}/--{b}"
+    for o in given:
+        if int(base[o]) != base[o] and matches(dict(base, **{o: int(base[o])})):
+            return "option-truncated", "--" + o
+    return "not-the-grid-for-the-command-line", ",".join("--" + o for o in sorted(given)) or "(defaults)"
+
+
+def parse_in(text):
+    """ELEC blocks of an APBS input file: list of dicts."""
+    blocks, cur = [], None
+    head = {"mol_pqr": None}
+    for l in text.split("\n"):
+        w = l.split()
+        if not w:
+            continue
+        if w[0] == "mol" and len(w) == 3 and w[1] == "pqr" and cur is None:
+            head["mol_pqr"] = w[2]
+        if w[0] == "elec":
+            cur = {"method": None}
+            blocks.append(cur)
+            first = True
+            continue
+        if cur is None:
+            continue
+        if first:  # the line after `elec` names the method
+            cur["method"], first = w[0], False
+        elif w[0] == "end":
+            cur = None
+        elif w[0] in ("dime", "pdime"):
+            cur[w[0]] = [int(x) for x in w[1:]]
+        elif w[0] in ("cglen", "fglen", "glen"):
+            cur[w[0]] = w[1:]
+        elif w[0] in ("cgcent", "fgcent", "gcent"):
+            cur[w[0]] = " ".join(w[1:])
+        elif w[0] in ("ofrac", "async"):
+            cur[w[0]] = w[1]
+    return head, blocks
+
+
+def expected_in(size, given, method_opt, params):
+    """What the ELEC section must carry for the library's sizing `size` (run_impl dict)."""
+    ng = size["ngrid"]
+    gmem = 200.0 * ng[0] * ng[1] * ng[2] / 1024 / 1024
+    method = {"auto": "mg-auto", "para": "mg-para", "manual": "mg-manual", "async": "mg-para"}.get(method_opt) or ("mg-para" if gmem > params["gmemceil"] else "mg-auto")
+    exp = {"method": method, "dime": [int(x) for x in (size["nsmall"] if method == "mg-para" else ng)]}
+    if method == "mg-manual":
+        exp["glen"] = [f"{v:.3f}" for v in size["coarse"]]
+        exp["gcent"] = "mol 1"
+    else:
+        exp["cglen"] = [f"{v:.4f}" for v in size["coarse"]]
+        exp["fglen"] = [f"{v:.4f}" for v in size["fine"]]
+        exp["cgcent"] = exp["fgcent"] = "mol 1"
+    if method == "mg-para":
+        exp["pdime"] = [int(x) for x in size["nproc"]]
+        exp["ofrac"] = f"{params['ofrac']:.1f}"
+    return exp
+
+
+def in_matches(blocks, exp):
+    return bool(blocks) and all(all(b.get(k) == v for k, v in exp.items()) for b in blocks)
+
+
+def entry_files(rng, ctx, n):
+    """Generated PQR files for the entry points: small, both layouts, headers, HETATM-only."""
+    root = ctx.scratch_dir() / "entry"
+    files = []
+    for k in range(n):
+        d = root / f"e{k}"
+        sub = ["", "d.ir", "a/b.c"][k % 3]
+        (d / sub).mkdir(parents=True, exist_ok=True)
+        ws = rng.random() < 0.5
+        spec, ext, off = gen_spec(rng, rng.choice([1, 2, 3, 5, 9, 20]), rng.choice(["safe", "safe", "cap"]))
+        kind = "hetatm-only" if k % 7 == 5 else "mixed"
+        if kind == "hetatm-only":
+            spec = [(True, *a[1:]) for a in spec]
+        rel = (sub + "/" if sub else "") + ["m.pqr", "na.me.pqr", "noext"][(k // 3) % 3]
+        lines = write_pqr(ctx, spec, ws, path=str(d / rel), deco=gen_deco(rng))
+        if k % 2:
+            lines = insert_headers(rng, lines, "mixed")
+            (d / rel).write_text("".join(lines))
+        files.append({"dir": d, "rel": rel, "lines": lines, "ws": ws, "spec": spec, "kind": kind})
+    return files
+
+
+def judge_psize(f, given, res):
+    """Failures [(signature, what)] of one psize command line."""
+    params = cli_params(given)
+    if res["rc"] != 0:
+        last = (res["err"].strip().split("\n") or [""])[-1][:160]
+        ref = direct_text(f["lines"], params)
+        if ref.startswith("ERR:") and ref[4:] in res["err"]:
+            return []  # the library itself raises for these parameters: not the entry point's doing
+        opt = next(("--" + o for o in PKEYS if ("--" + o) in last or f"'{o}'" in last), "(any)")
+        cond = "legal-value-rejected" if "error: argument" in last else "raises-" + (last.split(":")[0] or "exit")
+        return [({"site": "psize.main", "condition": cond, "option": opt}, f"psize {' '.join(cli_argv(given))} exited {res['rc']}: {last}")]
+    rep = parse_printed(res["out"] + res["err"])
+    if rep.get("unparsed"):
+        return [({"site": "psize.main", "condition": "no-report-printed", "option": "(any)"}, f"no size report in the output: {res['out'][:200]!r}")]
+    fails = []
+    want = parse_printed(direct_text(f["lines"], params))
+    if rep != want:
+        cond, opt = blame_option(given, lambda q: parse_printed(direct_text(f["lines"], q)) == rep)
+        diff = [k for k in rep if rep.get(k) != want.get(k)]
+        fails.append(({"site": "psize.main", "condition": cond, "option": opt}, f"psize {' '.join(cli_argv(given))}: printed {({k: rep[k] for k in diff})}, the sizing for these options is {({k: want.get(k) for k in diff})}"))
+    rb = read_back(f["lines"], f["ws"])
+    if rb and not any(rb[1]):
+        if not fails:
+            fails += [({"site": "psize.main", "condition": cond, "option": "(report)"}, what) for cond, what in printed_oracle(rep, rb[0], params)]
+    return fails
+
+
+def judge_inputgen(f, given, extra, res, cwd):
+    """extra: {'method': .., 'asynch': bool, 'potdx': bool, 'istrng': str|None}"""
+    params = cli_params(given)
+    argv_s = " ".join(cli_argv(given) + extra_argv(extra))
+    if res["rc"] != 0:
+        err_lines = res["err"].strip().split("\n")
+        last = (err_lines or [""])[-1][:160]
+        exc = last.split(":")[0] or "exit"
+        blob = res["err"]
+        opt = "--istrng" if "istrng" in blob else "--asynch+--potdx" if "asyncflag" in blob else ("--method" if ("getSmallest" in blob or "method" in last) else next(("--" + o for o in PKEYS if ("--" + o) in last), "(any)"))
+        size = run_impl(f["lines"], params)
+        if size["status"] != "OK" and size["status"].split(":")[1].split("-")[0] in blob:
+            return []
+        if "error: argument" in last:
+            exc = "legal-value-rejected"
+            opt = next(("--" + o for o in list(PKEYS) + ["method", "istrng"] if ("--" + o) in last), opt)
+            return [({"site": "inputgen.main", "condition": exc, "option": opt}, f"inputgen {argv_s} exited {res['rc']}: {last}")]
+        return [({"site": "inputgen.main", "condition": "raises-" + exc, "option": opt}, f"inputgen {argv_s} exited {res['rc']}: {last}")]
+    size = run_impl(f["lines"], params)
+    if size["status"] != "OK":
+        return [({"site": "inputgen.main", "condition": "writes-although-sizing-raises", "option": "(any)"}, f"inputgen {argv_s} succeeded but the sizing raises {size['status']}")]
+    stem = Path(f["rel"]).stem
+    exp = expected_in(size, given, extra.get("method"), params)
+    asyn = extra.get("asynch") or extra.get("method") == "async"
+    if asyn:
+        nproc = int(size["nproc"][0] * size["nproc"][1] * size["nproc"][2])
+        paths = [(cwd / f"{stem}-para.in", None)] + [(cwd / f"{stem}-PE{i}.in", str(i)) for i in range(nproc)]
+    else:
+        paths = [((cwd / f["rel"]).parent / f"{stem}.in", None)]
+    fails = []
+    for path, asy in paths:
+        if not path.exists():
+            fails.append(({"site": "inputgen.main", "condition": "input-file-missing", "option": "--asynch" if asyn else "(any)"}, f"inputgen {argv_s}: {path.name} was not written"))
+            break
+        head, blocks = parse_in(path.read_text())
+        want_name = Path(f["rel"]).name
+        if head["mol_pqr"] != want_name:
+            fails.append(({"site": "inputgen.main", "condition": "mol-pqr-name", "option": "filename"}, f"{path.name} names {head['mol_pqr']!r}, the PQR is {want_name!r}"))
+        nb = 1 if extra.get("potdx") else 2
+        if len(blocks) != nb:
+            fails.append(({"site": "inputgen.main", "condition": "elec-count", "option": "--potdx"}, f"{path.name} has {len(blocks)} ELEC sections, expected {nb}"))
+        e = dict(exp)
+        if asy is not None and e["method"] == "mg-para":
+            e["async"] = asy
+        if not in_matches(blocks, e):
+            got = [{k: b.get(k) for k in e} for b in blocks][:1]
+
+            def matches(q, _e=e, _blocks=blocks):
+                sz = run_impl(f["lines"], q)
+                if sz["status"] != "OK":
+                    return False
+                e2 = expected_in(sz, given, extra.get("method"), q)
+                if "async" in _e:
+                    e2["async"] = _e["async"]
+                return in_matches(_blocks, e2)
+
+            if blocks and blocks[0].get("method") != e["method"]:
+                cond, opt = "elec-method", "--method"
+            else:
+                cond, opt = blame_option(given, matches)
+            fails.append(({"site": "inputgen.main", "condition": cond, "option": opt}, f"inputgen {argv_s}: {path.name} has {got}, the sizing for these options gives {e}"))
+            break
+    # the property itself on the (first) file: boxes hold the molecule, dime legal
+    rb = read_back(f["lines"], f["ws"])
+    if not fails and rb and rb[0] and not any(rb[1]) and paths[0][0].exists() and params["cfac"] >= 1 and params["fadd"] >= 0:
+        atoms = rb[0]
+        need = [max(float(a[1 + i] + a[5]) for a in atoms) - min(float(a[1 + i] - a[5]) for a in atoms) for i in range(3)]
+        _, blocks = parse_in(paths[0][0].read_text())
+        for b in blocks:
+            kmin = 0 if b["method"] == "mg-para" else 1  # per-processor grid of a parallel run: 32k+1, k >= 0
+            if any((d - 1) % 32 or d < 32 * kmin + 1 for d in b.get("dime", [0])):
+                fails.append(({"site": "inputgen.main", "condition": "grid-form", "option": "(file)"}, f"dime {b.get('dime')} in a {b['method']} section"))
+                break
+            lens = [b[k] for k in ("cglen", "fglen", "glen") if k in b]
+            if any(float(L[i]) + 1e-3 < need[i] for L in lens for i in range(3)) or ("fglen" in b and any(float(b["fglen"][i]) > float(b["cglen"][i]) + 1e-9 for i in range(3))):
+                fails.append(({"site": "inputgen.main", "condition": "box-misses-molecule", "option": "(file)"}, f"molecule spans {need} but the section has {lens}"))
+                break
+            if [b.get(k) for k in ("cgcent", "fgcent", "gcent") if k in b] not in (["mol 1", "mol 1"], ["mol 1"]):
+                fails.append(({"site": "inputgen.main", "condition": "not-centred", "option": "(file)"}, f"centres {[b.get(k) for k in ('cgcent', 'fgcent', 'gcent')]}"))
+                break
+    return fails
+
+
+def extra_argv(extra):
+    a = []
+    if extra.get("method"):
+        a += ["--method", extra["method"]]
+    if extra.get("asynch"):
+        a.append("--asynch")
+    if extra.get("potdx"):
+        a.append("--potdx")
+    if extra.get("istrng") is not None:
+        a += ["--istrng", extra["istrng"]]
+    return a
+
+
+def judge_split(para_text, stem, nproc, res, cwd):
+    if res["rc"] != 0:
+        last = (res["err"].strip().split("\n") or [""])[-1][:160]
+        return [({"site": "inputgen.main", "condition": "raises-" + (last.split(":")[0] or "exit"), "option": "--split"}, f"inputgen --split exited {res['rc']}: {last}")]
+    fails = []
+    for i in range(nproc):
+        p = cwd / f"{stem}-PE{i}.in"
+        want = para_text.replace("mg-para\n", f"mg-para\n    async {i}\n")
+        if not p.exists() or p.read_text() != want:
+            fails.append(({"site": "inputgen.main", "condition": "split-file-differs", "option": "--split"}, f"{p.name}: " + ("missing" if not p.exists() else first_diff(p.read_text(), want))))
+            break
+    return fails
+
+
+def entry_stream(ctx, n):
+    """Returns the number of command lines run."""
+    rng = ctx.rng
+    files = entry_files(rng, ctx, n)
+    jobs = []
+    methods = [None, "auto", "para", "manual", "async"]
+    for k, f in enumerate(files):
+        given = gen_cli(rng, k)
+        jobs.append({"tool": "psize", "f": f, "given": given, "argv": cli_argv(given) + [f["rel"]], "driver": PSIZE_DRIVER})
+        given2 = gen_cli(rng, k + 1)
+        if k % 5 in (2, 4) and "gmemceil" not in given2:
+            given2["gmemceil"] = rng.choice([1, 2, 5])  # parallel runs that really are parallel
+        extra = {"method": methods[k % 5], "asynch": k % 4 == 3, "potdx": k % 3 == 1, "istrng": [None, "0.15", "0"][k % 3]}
+        jobs.append({"tool": "inputgen", "f": f, "given": given2, "extra": extra, "argv": cli_argv(given2) + extra_argv(extra) + [f["rel"]], "driver": INPUTGEN_DRIVER})
+    with ThreadPoolExecutor(max_workers=6) as ex:
+        results = list(ex.map(lambda j: run_entry(j["driver"], j["argv"], j["f"]["dir"]), jobs))
+    terms, keep = [], []
+    for j, res in zip(jobs, results):
+        f = j["f"]
+        params = cli_params(j["given"])
+        case = {"kind": "entry", "tool": j["tool"], "argv": j["argv"], "lines": f["lines"], "rel": f["rel"], "whitespace": f["ws"], "given": j["given"], "extra": j.get("extra")}
+        if j["tool"] == "psize":
+            fails = judge_psize(f, j["given"], res)
+        else:
+            fails = judge_inputgen(f, j["given"], j["extra"], res, f["dir"])
+        ctx.count(f"entry:{j['tool']}")
+        ctx.count("entry-options=" + (str(len(j["given"])) if len(j["given"]) < 3 else "3+"))
+        if j["tool"] == "inputgen":
+            ctx.count("entry-method=" + str(j["extra"]["method"]))
+        ctx.evaluated(("entry", j["tool"], tuple(j["argv"][:-1]), f["kind"], f["ws"]), res["rc"] == 0)
+        for sig, what in fails:
+            ctx.fail(sig, what, case)
+        # the model, evaluated with the parameters the command line states
+        if j["tool"] == "psize":
+            tab = float_table(f["lines"])
+            if tab is not None:
+                terms.append(f"run_text {params_term(params)} false {tab} {lines_term(f['lines'])}")
+                keep.append({"lines": f["lines"], "params": params, "ws": f["ws"], "impl": run_impl(f["lines"], params), "argv": j["argv"], "printed": parse_printed(res["out"] + res["err"]) if res["rc"] == 0 else None})
+        # --split of a parallel input file written by the tool itself
+        if j["tool"] == "inputgen" and res["rc"] == 0 and j["extra"]["method"] == "para" and not j["extra"]["asynch"]:
+            stem = Path(f["rel"]).stem
+            inp = (f["dir"] / f["rel"]).parent / f"{stem}.in"
+            if inp.exists():
+                text = inp.read_text()
+                m = re.search(r"pdime (\d+) (\d+) (\d+)", text)
+                nproc = int(m.group(1)) * int(m.group(2)) * int(m.group(3)) if m else 0
+                if 0 < nproc <= 64:
+                    r2 = run_entry(INPUTGEN_DRIVER, ["--split", str(inp)], f["dir"])
+                    ctx.count("entry:inputgen--split")
+                    ctx.evaluated(("entry", "split", nproc, f["rel"]), r2["rc"] == 0)
+                    for sig, what in judge_split(text, stem, nproc, r2, f["dir"]):
+                        ctx.fail(sig, what, dict(case, split=True))
+    return terms, keep
+
+
+def entry_correspondence(ctx, terms, keep):
+    """Model (run_text at the command line's parameters) vs the library at those parameters
+    (boundary-aware, as stream A/B) and vs the numbers the entry point printed."""
+    broken = False
+    try:
+        res = core.run_cases(f"C17E{os.getpid()}", HEADER, terms, chunk=24)
+    except core.CoqEvalError as e:
+        ctx.broke("correspondence-broken", "entry stream: model evaluation failed", str(e))
+        return True
+    for c, mout in zip(keep, res):
+        ctx.cov["correspondence_cases"] += 1
+        diffs, boundary = compare(mout, c["impl"], c["params"])
+        rep = c["printed"]
+        if not diffs and rep and not rep.get("noatom") and not rep.get("unparsed") and mout.startswith("OK|"):
+            f = mout.split("|")
+            ng = [int(x) for x in f[10].split(",")]
+            if ng != [int(x) for x in rep["ngrid"]] or int(f[13]) != rep["nfocus"]:
+                diffs.append(f"printed ngrid/nfocus {rep['ngrid']}/{rep['nfocus']} model {f[10]}/{f[13]}")
+            for name, idx in (("center", 9), ("coarse", 7), ("fine", 8), ("mol", 6)):
+                for a, b in zip(frs(f[idx]), rep[name]):
+                    if abs(float(a) - b) > 5.1e-4:
+                        diffs.append(f"printed {name} {b} model {float(a)}")
+        if diffs and boundary:
+            ctx.count("rounding-boundary-excluded")
+            continue
+        if diffs:
+            ctx.cov["correspondence_disagreements"] += 1
+            broken = True
+            if len([b for b in ctx.broken if b["kind"] == "correspondence-broken"]) < 4:
+                ctx.broke("correspondence-broken", "Model.Psize.run_text at the command line's parameters vs psize entry point / library", "; ".join(diffs)[:1500], {"argv": c["argv"], "lines": c["lines"][:60], "params": c["params"]})
+    return broken
+
+
+def replay_entry(ctx, case):
+    root = ctx.scratch_dir() / "replay_entry"
+    p = root / case["rel"]
+    p.parent.mkdir(parents=True, exist_ok=True)
+    p.write_text("".join(case["lines"]))
+    f = {"dir": root, "rel": case["rel"], "lines": case["lines"], "ws": case.get("whitespace", False)}
+    if case["tool"] == "psize":
+        res = run_entry(PSIZE_DRIVER, case["argv"], root)
+        fails = judge_psize(f, case["given"], res)
+    else:
+        res = run_entry(INPUTGEN_DRIVER, case["argv"], root)
+        fails = judge_inputgen(f, case["given"], case.get("extra") or {}, res, root)
+        if not fails and case.get("split"):
+            stem = Path(case["rel"]).stem
+            inp = p.parent / f"{stem}.in"
+            text = inp.read_text()
+            m = re.search(r"pdime (\d+) (\d+) (\d+)", text)
+            nproc = int(m.group(1)) * int(m.group(2)) * int(m.group(3))
+            fails = judge_split(text, stem, nproc, run_entry(INPUTGEN_DRIVER, ["--split", str(inp)], root), root)
+    print("replay:", case["tool"], " ".join(case["argv"]), "->", ("FAILS: " + "; ".join(w for _, w in fails)[:600]) if fails else "passes")
+    ctx.cleanup()
+    return 1 if fails else 0
+
+
+# --------------------------------------------------------------------------
 # replay
 
 
@@ -1270,6 +1784,8 @@ def replay(ctx, data):
         print("replay:", ("FAILS: " + "; ".join(fails)[:600]) if fails else "passes")
         ctx.cleanup()
         return 1 if fails else 0
+    if kind == "entry":
+        return replay_entry(ctx, case)
     if kind == "e2e":
         before = len(ctx.failures)
         end_to_end(ctx)
